@@ -81,6 +81,22 @@ func (v *VerifConcSession) VerifConcDropAndSend(m *Message) error {
 // VerifConcDropAndReset is session.dropAndReset.
 func (v *VerifConcSession) VerifConcDropAndReset() error { return v.s.dropAndReset() }
 
+// VerifConcResetSession is the registry call ResetSession(sessionID) on this session (registered for the duration of the
+// call). While the session is not logged on ShutdownNow does nothing and the call is a dropAndReset from the caller's
+// goroutine; while it is logged on ShutdownNow would first send a Logout from that goroutine, which the harness does not
+// model, so dropAndReset is called directly.
+func (v *VerifConcSession) VerifConcResetSession() error {
+	if v.s.IsLoggedOn() {
+		return v.s.dropAndReset()
+	}
+	_ = UnregisterSession(v.s.sessionID)
+	if err := registerSession(v.s); err != nil {
+		return err
+	}
+	defer func() { _ = UnregisterSession(v.s.sessionID) }()
+	return ResetSession(v.s.sessionID)
+}
+
 // VerifConcSendAppMessages is stateMachine.SendAppMessages (what the run loop does on messageEvent).
 func (v *VerifConcSession) VerifConcSendAppMessages() { v.s.SendAppMessages(v.s) }
 
